@@ -4,10 +4,12 @@ import math
 import struct
 
 F32_EDGE = [0x00000000, 0x80000000, 0x3FC00000, 0xBF800000, 0x7F800000, 0xFF800000,
-            0x00000001, 0x7F7FFFFF, 0x00800000, 0x3EAAAAAB, 0x7FC00000, 0xFFC00001]
+            0x00000001, 0x7F7FFFFF, 0x00800000, 0x3EAAAAAB, 0x7FC00000, 0xFFC00001,
+            0x40000000, 0xC0800000, 0x42C80000, 0x49742400]  # ..., 2.0, -4.0, 100.0, 1000000.0
 F64_EDGE = [0, 1 << 63, 0x3FF8000000000000, 0xBFF0000000000000, 0x7FF0000000000000,
             0xFFF0000000000000, 1, 0x7FEFFFFFFFFFFFFF, 0x0010000000000000,
-            0x3FD5555555555555, 0x7FF8000000000000, 0xFFF8000000000001]
+            0x3FD5555555555555, 0x7FF8000000000000, 0xFFF8000000000001,
+            0x4000000000000000, 0xC010000000000000, 0x4059000000000000, 0x412E848000000000]  # 2.0, -4.0, 100.0, 1e6
 
 
 def f32_from_bits(b):
